@@ -2364,6 +2364,12 @@ impl<T: Storage> Raft<T> {
                 {
                     return Ok(());
                 }
+                // A pre-vote is granted for the term that was asked for, our term + 1. A
+                // grant carrying another term answers an earlier round (we have advanced
+                // since) and says nothing about this one.
+                if self.state == StateRole::PreCandidate && !m.reject && m.term != self.term + 1 {
+                    return Ok(());
+                }
 
                 self.poll(m.from, m.get_msg_type(), !m.reject);
                 self.maybe_commit_by_vote(&m);
